@@ -18,7 +18,7 @@ C == Tr.cfg
 Steps == {C.order[i] : i \in 1..Len(C.order)}
 Set(sq) == {sq[i] : i \in 1..Len(sq)}
 
-St0 == [run |-> 0, slots |-> {}, ended |-> "none", cancelled |-> FALSE, timedout |-> FALSE, bad |-> "ok"]
+St0 == [run |-> 0, slots |-> {}, ended |-> "none", cancelled |-> FALSE, timedout |-> FALSE, stopped_at |-> -1, bad |-> "ok"]
 
 Apply(s, r) ==
   LET s0 == IF r.run # s.run THEN [St0 EXCEPT !.run = r.run] ELSE s IN
@@ -31,10 +31,13 @@ Apply(s, r) ==
          IN [s0 EXCEPT !.timedout = TRUE,
                        !.bad = IF C.timeout_ms = -1 THEN "timed_out_without_timeout"
                                ELSE IF r.t < C.timeout_ms THEN "timed_out_early"
+                               \* the step producing the run's StopEvent had returned before the deadline
+                               ELSE IF s0.run = 1 /\ s0.stopped_at # -1 /\ s0.stopped_at < C.timeout_ms THEN "finished_run_timed_out"
                                ELSE IF ~(live \subseteq named) THEN "active_step_not_named"
                                ELSE IF ~(named \subseteq (live \cup slotted)) THEN "inactive_step_named"
                                ELSE @]
     [] r.e = "pub" /\ r.p.k = "cancelled" -> [s0 EXCEPT !.cancelled = TRUE]
+    [] r.e = "step_end" /\ r.how = "stop" /\ s0.stopped_at = -1 -> [s0 EXCEPT !.stopped_at = r.t]
     [] r.e = "step_start" ->
          [s0 EXCEPT !.bad = IF s0.cancelled THEN "step_started_after_cancellation"
                             ELSE IF s0.timedout THEN "step_started_after_timeout" ELSE @]
